@@ -155,6 +155,14 @@ let run (path : String.t) =
            (match encode f with EncTooLarge _ -> () | EncOk _ -> (corr := false; note "model encodes, impl refuses"))))
         frames (if List.length encs = List.length frames then encs else List.map (fun _ -> None) frames);
       let accepted = List.rev !accepted in
+      (* the same frames written into one buffer: the concatenation of their encodings *)
+      List.iter (fun l -> match split_ws l with
+        | ["shared"; "panic"] -> (prop := false; note "encoder panicked when writing into a buffer that already holds frames")
+        | ["shared"; h] ->
+          let got = if h = "-" then [] else bytes_of h in
+          let want = List.concat (List.filter_map (fun e -> e) encs) in
+          if got <> want then (prop := false; note "frames encoded one after the other into one buffer differ from the concatenation of their encodings")
+        | _ -> ()) block;
       (* P2 *)
       let want = List.map (fun f -> DGot f) accepted in
       if not (evs_equal impl_evs want) then (prop := false; note "decoded frame sequence differs from the frames sent");
